@@ -227,7 +227,7 @@ def run(ctx):
     if not numba.config.BOUNDSCHECK:
         raise core.HarnessError("numba bounds checking is not active")
     jobs = []
-    for part, nq, nt, k in (("sample", 300, 8000, 4), ("history", 300, 8000, 7), ("stress", 600, 20000, 5)):
+    for part, nq, nt, k in (("sample", 600, 8000, 4), ("history", 450, 8000, 7), ("stress", 1500, 20000, 5)):
         for i, m in enumerate(core.split(ctx.n(nq, nt), k)):
             jobs.append((part, m, core.subseed(ctx.seed, part, i), ctx.known_sigs, ctx.n(12, 40)))
     stats = core.Stats()
